@@ -232,6 +232,12 @@ spec fn out_wf(jobs: Seq<NodeInfo>) -> bool {
     forall|i: int| 0 <= i < jobs.len() ==> out_wf_one(#[trigger] jobs[i])
 }
 
+/// W5 for every job except x (the job whose "finished successfully" report is being delivered:
+/// it is still Running but already carries its output)
+spec fn out_wf_x(jobs: Seq<NodeInfo>, x: int) -> bool {
+    forall|i: int| 0 <= i < jobs.len() && i != x ==> out_wf_one(#[trigger] jobs[i])
+}
+
 /// two-state relation of every mutating operation on the job table
 spec fn jobs_step(a: Seq<NodeInfo>, b: Seq<NodeInfo>) -> bool {
     &&& a.len() == b.len()
@@ -327,11 +333,13 @@ proof fn lemma_lookup(jobs: Seq<NodeInfo>, m: Map<String, usize>, id: Seq<char>)
     }
 }
 
-/// `post` is `pre` with only entry n changed, id kept
+/// `post` is `pre` with only entry n changed (id kept); other entries keep id, state and output
+/// (their `last_considered_in_gen` bookkeeping may differ)
 spec fn one_changed(pre: Seq<NodeInfo>, post: Seq<NodeInfo>, n: int) -> bool {
     &&& 0 <= n < pre.len()
     &&& post.len() == pre.len()
-    &&& forall|k: int| 0 <= k < pre.len() && k != n ==> #[trigger] post[k] == pre[k]
+    &&& forall|k: int| 0 <= k < pre.len() && k != n ==> (#[trigger] post[k]).job_id == pre[k].job_id
+            && post[k].state == pre[k].state && post[k].history_output == pre[k].history_output
     &&& post[n].job_id == pre[n].job_id
 }
 
@@ -341,14 +349,13 @@ proof fn lemma_ids_after_write(pre: Seq<NodeInfo>, post: Seq<NodeInfo>, m: Map<S
 {
     assert forall|i: int| 0 <= i < post.len() implies #[trigger] m.contains_key(post[i].job_id)
             && m[post[i].job_id] == i && valid_id(post[i].job_id@) by {
-        if i != n { assert(post[i] == pre[i]); }
         assert(post[i].job_id == pre[i].job_id);
         assert(m.contains_key(pre[i].job_id));
     }
     assert forall|k: String| #[trigger] m.contains_key(k) implies m[k] < post.len() && post[m[k] as int].job_id == k by {
         let i = m[k] as int;
         assert(0 <= i < pre.len() && pre[i].job_id == k);
-        if i != n { assert(post[i] == pre[i]); }
+        assert(post[i].job_id == pre[i].job_id);
     }
 }
 
@@ -372,7 +379,7 @@ proof fn lemma_ready_set_after_write(pre: Seq<NodeInfo>, post: Seq<NodeInfo>, m:
 {
     assert forall|i: int| 0 <= i < post.len() implies (is_ready(#[trigger] post[i].state) <==> ready2.contains(post[i].job_id)) by {
         if i != n {
-            assert(post[i] == pre[i]);
+            assert(post[i].state == pre[i].state && post[i].job_id == pre[i].job_id);
             assert(is_ready(pre[i].state) <==> ready.contains(pre[i].job_id));
             if pre[i].job_id == pre[n].job_id { lemma_ids_unique(pre, m, i, n); }
         } else {
@@ -399,7 +406,7 @@ proof fn lemma_cleanup_set_after_write(pre: Seq<NodeInfo>, post: Seq<NodeInfo>, 
 {
     assert forall|i: int| 0 <= i < post.len() implies (is_rfc(#[trigger] post[i].state) <==> cl2.contains(post[i].job_id)) by {
         if i != n {
-            assert(post[i] == pre[i]);
+            assert(post[i].state == pre[i].state && post[i].job_id == pre[i].job_id);
             assert(is_rfc(pre[i].state) <==> cl.contains(pre[i].job_id));
             if pre[i].job_id == pre[n].job_id { lemma_ids_unique(pre, m, i, n); }
         } else {
@@ -412,11 +419,11 @@ proof fn lemma_cleanup_set_after_write(pre: Seq<NodeInfo>, post: Seq<NodeInfo>, 
 }
 
 proof fn lemma_out_after_write(pre: Seq<NodeInfo>, post: Seq<NodeInfo>, n: int)
-    requires out_wf(pre), one_changed(pre, post, n), out_wf_one(post[n]),
+    requires out_wf_x(pre, n), one_changed(pre, post, n), out_wf_one(post[n]),
     ensures out_wf(post),
 {
     assert forall|i: int| 0 <= i < post.len() implies out_wf_one(#[trigger] post[i]) by {
-        if i != n { assert(post[i] == pre[i]); assert(out_wf_one(pre[i])); }
+        if i != n { assert(post[i].state == pre[i].state && post[i].history_output == pre[i].history_output); assert(out_wf_one(pre[i])); }
     }
 }
 
@@ -426,13 +433,11 @@ proof fn lemma_step_after_write(pre: Seq<NodeInfo>, post: Seq<NodeInfo>, n: int)
     ensures jobs_step(pre, post),
 {
     assert forall|i: int| 0 <= i < pre.len() implies lc_le(pre[i].state, (#[trigger] post[i]).state) by {
-        if i != n { assert(post[i] == pre[i]); lemma_lc_order(pre[i].state, pre[i].state, pre[i].state); }
+        if i != n { assert(post[i].state == pre[i].state); lemma_lc_order(pre[i].state, pre[i].state, pre[i].state); }
     }
-    assert forall|i: int| 0 <= i < pre.len() implies (#[trigger] post[i]).job_id == pre[i].job_id by {
-        if i != n { assert(post[i] == pre[i]); }
-    }
+    assert forall|i: int| 0 <= i < pre.len() implies (#[trigger] post[i]).job_id == pre[i].job_id by {}
     assert forall|i: int| 0 <= i < pre.len() implies (pre[i].history_output is Some ==> (#[trigger] post[i]).history_output == pre[i].history_output) by {
-        if i != n { assert(post[i] == pre[i]); }
+        if i != n { assert(post[i].history_output == pre[i].history_output); }
     }
 }
 
@@ -442,7 +447,7 @@ proof fn lemma_all_finished_after_write(pre: Seq<NodeInfo>, post: Seq<NodeInfo>,
     ensures forall|i: int| 0 <= i < post.len() ==> finished(#[trigger] post[i].state),
 {
     assert forall|i: int| 0 <= i < post.len() implies finished(#[trigger] post[i].state) by {
-        if i != n { assert(post[i] == pre[i]); }
+        if i != n { assert(post[i].state == pre[i].state); assert(finished(pre[i].state)); }
     }
 }
 
@@ -971,7 +976,31 @@ spec fn up_invalidating(dag0: &GraphType, strategy: &dyn PPGEvaluatorStrategy, h
 
 // ---- signals
 spec fn sigs_valid(s: Seq<Signal>, n: nat) -> bool {
-    forall|k: int| 0 <= k < s.len() ==> (#[trigger] s[k]).node_idx < n
+    forall|k: int| 0 <= k < s.len() ==> (#[trigger] s[k]).node_idx < n && s[k].kind != SignalKind::JobFinishedSuccess
+}
+
+/// pending signals: valid node, and a pending "finished successfully" carries the reported output
+/// (the cascade itself never creates such a signal)
+spec fn sigs_ok(s: Seq<Signal>, jobs: Seq<NodeInfo>) -> bool {
+    forall|k: int| 0 <= k < s.len() ==> (#[trigger] s[k]).node_idx < jobs.len()
+        && (s[k].kind == SignalKind::JobFinishedSuccess ==> jobs[s[k].node_idx as int].history_output is Some)
+}
+
+proof fn lemma_sigs_ok_step(s: Seq<Signal>, a: Seq<NodeInfo>, b: Seq<NodeInfo>)
+    requires sigs_ok(s, a), jobs_step(a, b),
+    ensures sigs_ok(s, b),
+{
+    assert forall|k: int| 0 <= k < s.len() implies (#[trigger] s[k]).node_idx < b.len()
+        && (s[k].kind == SignalKind::JobFinishedSuccess ==> b[s[k].node_idx as int].history_output is Some) by {
+        let i = s[k].node_idx as int;
+        assert(a[i].history_output is Some ==> b[i].history_output == a[i].history_output);
+    }
+}
+
+proof fn lemma_sigs_valid_ok(s: Seq<Signal>, jobs: Seq<NodeInfo>)
+    requires sigs_valid(s, jobs.len()),
+    ensures sigs_ok(s, jobs),
+{
 }
 
 /// helper-level frames on the job table
@@ -1006,7 +1035,7 @@ proof fn lemma_sig_ext_valid(a: Seq<Signal>, b: Seq<Signal>, n: nat)
     requires sig_ext_consider(a, b, n), sigs_valid(a, n),
     ensures sigs_valid(b, n),
 {
-    assert forall|k: int| 0 <= k < b.len() implies (#[trigger] b[k]).node_idx < n by {
+    assert forall|k: int| 0 <= k < b.len() implies (#[trigger] b[k]).node_idx < n && b[k].kind != SignalKind::JobFinishedSuccess by {
         if k < a.len() { assert(b[k] == a[k]); }
     }
 }
@@ -1064,17 +1093,17 @@ proof fn lemma_cleanup_step(dag: &GraphType, jobs0: Seq<NodeInfo>, j0: Seq<NodeI
 {
     assert forall|i: int| 0 <= i < jobs0.len() implies (#[trigger] j1[i]).job_id == jobs0[i].job_id && j1[i].history_output == jobs0[i].history_output
         && (j1[i].state == jobs0[i].state || (is_nrfc(jobs0[i].state) && (is_rfc(j1[i].state) || is_skipfc(j1[i].state)))) by {
-        if i != e as int { assert(j1[i] == j0[i]); }
+        if i != e as int { assert(j1[i].state == j0[i].state && j1[i].job_id == j0[i].job_id && j1[i].history_output == j0[i].history_output); }
         assert(j0[i].job_id == jobs0[i].job_id);
     }
     assert forall|i: int, k: int| 0 <= i < j1.len() && 0 <= k < j1.len() && i != k implies (#[trigger] j1[i]).job_id != (#[trigger] j1[k]).job_id by {
-        if i != e as int { assert(j1[i] == j0[i]); }
-        if k != e as int { assert(j1[k] == j0[k]); }
+        assert(j1[i].job_id == j0[i].job_id);
+        assert(j1[k].job_id == j0[k].job_id);
         assert(j0[i].job_id != j0[k].job_id);
     }
     assert forall|i: int| 0 <= i < j1.len() implies (is_rfc(#[trigger] j1[i].state) <==> set1.contains(j1[i].job_id)) by {
         if i != e as int {
-            assert(j1[i] == j0[i]);
+            assert(j1[i].state == j0[i].state && j1[i].job_id == j0[i].job_id);
             assert(j0[i].job_id != j0[e as int].job_id);
             assert(is_rfc(j0[i].state) <==> set0.contains(j0[i].job_id));
         } else {
@@ -1091,6 +1120,35 @@ spec fn core_ok(jobs: Seq<NodeInfo>, m: Map<String, usize>, dag: &GraphType, rea
     &&& cleanup_set_wf(jobs, cleanup, m)
     &&& out_wf(jobs)
     &&& (fin ==> forall|i: int| 0 <= i < jobs.len() ==> finished(#[trigger] jobs[i].state))
+}
+
+/// the cascade invariant with job x exempt from W5 (x = -1: nobody)
+spec fn core_ok_x(jobs: Seq<NodeInfo>, m: Map<String, usize>, dag: &GraphType, ready: Set<String>, cleanup: Set<String>, fin: bool, x: int) -> bool {
+    &&& ids_wf(jobs, m)
+    &&& edges_in_range(dag, jobs.len())
+    &&& ready_set_wf(jobs, ready, m)
+    &&& cleanup_set_wf(jobs, cleanup, m)
+    &&& out_wf_x(jobs, x)
+    &&& (fin ==> forall|i: int| 0 <= i < jobs.len() ==> finished(#[trigger] jobs[i].state))
+}
+
+proof fn lemma_core_x(jobs: Seq<NodeInfo>, m: Map<String, usize>, dag: &GraphType, ready: Set<String>, cleanup: Set<String>, fin: bool, x: int)
+    ensures
+        core_ok(jobs, m, dag, ready, cleanup, fin) ==> core_ok_x(jobs, m, dag, ready, cleanup, fin, x),
+        core_ok_x(jobs, m, dag, ready, cleanup, fin, x) && (x < 0 || x >= jobs.len() || out_wf_one(jobs[x])) ==> core_ok(jobs, m, dag, ready, cleanup, fin),
+{
+    if core_ok(jobs, m, dag, ready, cleanup, fin) {
+        assert forall|i: int| 0 <= i < jobs.len() && i != x implies out_wf_one(#[trigger] jobs[i]) by {}
+    }
+    if core_ok_x(jobs, m, dag, ready, cleanup, fin, x) && (x < 0 || x >= jobs.len() || out_wf_one(jobs[x])) {
+        assert forall|i: int| 0 <= i < jobs.len() implies out_wf_one(#[trigger] jobs[i]) by {}
+    }
+}
+
+/// the job exempt from W5 while the signal at position `si` of the drained queue is pending: only the
+/// very first signal of a cascade may be a "finished successfully" report
+spec fn cur_x(sigs: Seq<Signal>, si: int) -> int {
+    if si == 0 && sigs.len() > 0 && sigs[0].kind == SignalKind::JobFinishedSuccess { sigs[0].node_idx as int } else { -1 }
 }
 
 spec fn dag_dom_same(a: &GraphType, b: &GraphType) -> bool {
@@ -1112,7 +1170,7 @@ proof fn lemma_dag_dom_range(a: &GraphType, b: &GraphType, n: nat)
 proof fn lemma_write_ok(pre: Seq<NodeInfo>, post: Seq<NodeInfo>, m: Map<String, usize>, dag: &GraphType,
     r0: Set<String>, r1: Set<String>, c0: Set<String>, c1: Set<String>, fin: bool, n: int)
     requires
-        core_ok(pre, m, dag, r0, c0, fin), one_changed(pre, post, n),
+        core_ok_x(pre, m, dag, r0, c0, fin, n), one_changed(pre, post, n),
         lc_le(pre[n].state, post[n].state), out_wf_one(post[n]),
         pre[n].history_output is Some ==> post[n].history_output == pre[n].history_output,
         is_ready(pre[n].state) == is_ready(post[n].state) ==> r1 == r0,
@@ -1242,7 +1300,111 @@ proof fn lemma_cleanup_ok(pre: Seq<NodeInfo>, post: Seq<NodeInfo>, m: Map<String
 }
 
 impl<T: PPGEvaluatorStrategy> PPGEvaluator<T> {
+    spec fn core_x(&self, x: int) -> bool {
+        core_ok_x(self.jobs@, self.job_id_to_node_idx@, &self.dag, self.jobs_ready_to_run@, self.jobs_ready_for_cleanup@, self.already_started is Finished, x)
+    }
+
     spec fn core(&self) -> bool {
         core_ok(self.jobs@, self.job_id_to_node_idx@, &self.dag, self.jobs_ready_to_run@, self.jobs_ready_for_cleanup@, self.already_started is Finished)
+    }
+}
+
+impl<T: PPGEvaluatorStrategy> PPGEvaluator<T> {
+    /// what a completed cascade guarantees relative to the state it started from
+    spec fn cascade_post(&self, o: &Self) -> bool {
+        &&& self.core()
+        &&& self.signals@.len() == 0
+        &&& jobs_step(o.jobs@, self.jobs@)
+        &&& self.history@ == o.history@
+        &&& self.job_id_to_node_idx@ == o.job_id_to_node_idx@
+        &&& dag_dom_same(&o.dag, &self.dag)
+        &&& self.already_started == o.already_started
+    }
+}
+
+/// one state write inside the cascade: re-establishes the cascade invariant and extends the step relation
+proof fn lemma_arm_write(oldj: Seq<NodeInfo>, pre: Seq<NodeInfo>, post: Seq<NodeInfo>, m: Map<String, usize>, dag: &GraphType,
+    r0: Set<String>, r1: Set<String>, c0: Set<String>, c1: Set<String>, fin: bool, n: int, x: int)
+    requires
+        jobs_step(oldj, pre), x == n || x == -1,
+        core_ok_x(pre, m, dag, r0, c0, fin, x), one_changed(pre, post, n),
+        lc_le(pre[n].state, post[n].state), out_wf_one(post[n]),
+        pre[n].history_output is Some ==> post[n].history_output == pre[n].history_output,
+        is_ready(pre[n].state) == is_ready(post[n].state) ==> r1 == r0,
+        is_ready(pre[n].state) && !is_ready(post[n].state) ==> r1 == r0.remove(pre[n].job_id),
+        !is_ready(pre[n].state) && is_ready(post[n].state) ==> r1 == r0.insert(pre[n].job_id),
+        is_rfc(pre[n].state) == is_rfc(post[n].state) ==> c1 == c0,
+        is_rfc(pre[n].state) && !is_rfc(post[n].state) ==> c1 == c0.remove(pre[n].job_id),
+        !is_rfc(pre[n].state) && is_rfc(post[n].state) ==> c1 == c0.insert(pre[n].job_id),
+    ensures core_ok(post, m, dag, r1, c1, fin), jobs_step(oldj, post), core_ok_x(post, m, dag, r1, c1, fin, -1),
+{
+    lemma_core_x(post, m, dag, r1, c1, fin, -1);
+    if x == -1 { lemma_core_x(pre, m, dag, r0, c0, fin, -1); lemma_core_x(pre, m, dag, r0, c0, fin, n); }
+    lemma_write_ok(pre, post, m, dag, r0, r1, c0, c1, fin, n);
+    lemma_jobs_step_trans(oldj, pre, post);
+}
+
+/// a helper call inside the cascade that only moves pre-offer states (and may update edge weights)
+proof fn lemma_arm_soft(oldj: Seq<NodeInfo>, pre: Seq<NodeInfo>, post: Seq<NodeInfo>, m: Map<String, usize>, dag: &GraphType,
+    dag2: &GraphType, r0: Set<String>, c0: Set<String>, fin: bool)
+    requires
+        jobs_step(oldj, pre), core_ok(pre, m, dag, r0, c0, fin), jobs_soft(pre, post),
+        edges_in_range(dag2, pre.len()),
+    ensures core_ok(post, m, dag2, r0, c0, fin), jobs_step(oldj, post), core_ok_x(post, m, dag2, r0, c0, fin, -1),
+{
+    lemma_core_x(post, m, dag2, r0, c0, fin, -1);
+    lemma_soft_ok(pre, post, m, dag, r0, c0, fin);
+    lemma_jobs_step_trans(oldj, pre, post);
+}
+
+proof fn lemma_arm_touch(oldj: Seq<NodeInfo>, pre: Seq<NodeInfo>, post: Seq<NodeInfo>, m: Map<String, usize>, dag: &GraphType,
+    r0: Set<String>, c0: Set<String>, fin: bool)
+    requires
+        jobs_step(oldj, pre), core_ok(pre, m, dag, r0, c0, fin), jobs_touch(pre, post),
+    ensures core_ok(post, m, dag, r0, c0, fin), jobs_step(oldj, post), core_ok_x(post, m, dag, r0, c0, fin, -1),
+{
+    lemma_core_x(post, m, dag, r0, c0, fin, -1);
+    lemma_touch_is_soft(pre, post);
+    lemma_arm_soft(oldj, pre, post, m, dag, dag, r0, c0, fin);
+}
+
+proof fn lemma_arm_cleanup(oldj: Seq<NodeInfo>, pre: Seq<NodeInfo>, post: Seq<NodeInfo>, m: Map<String, usize>, dag: &GraphType,
+    r0: Set<String>, c0: Set<String>, c1: Set<String>, fin: bool)
+    requires
+        jobs_step(oldj, pre), core_ok(pre, m, dag, r0, c0, fin), cleanup_frame(pre, post),
+        forall|i: int| 0 <= i < post.len() ==> (is_rfc(#[trigger] post[i].state) <==> c1.contains(post[i].job_id)),
+        forall|k: String| #[trigger] c1.contains(k) ==> c0.contains(k) || exists|i: int| 0 <= i < pre.len() && #[trigger] pre[i].job_id == k,
+    ensures core_ok(post, m, dag, r0, c1, fin), jobs_step(oldj, post), core_ok_x(post, m, dag, r0, c1, fin, -1),
+{
+    lemma_core_x(post, m, dag, r0, c1, fin, -1);
+    lemma_cleanup_ok(pre, post, m, dag, r0, c0, c1, fin);
+    lemma_jobs_step_trans(oldj, pre, post);
+}
+
+proof fn lemma_core_gives_unique(jobs: Seq<NodeInfo>, m: Map<String, usize>)
+    requires ids_wf(jobs, m),
+    ensures forall|i: int, k: int| 0 <= i < jobs.len() && 0 <= k < jobs.len() && i != k ==> (#[trigger] jobs[i]).job_id != (#[trigger] jobs[k]).job_id,
+{
+    assert forall|i: int, k: int| 0 <= i < jobs.len() && 0 <= k < jobs.len() && i != k implies (#[trigger] jobs[i]).job_id != (#[trigger] jobs[k]).job_id by {
+        if jobs[i].job_id == jobs[k].job_id { lemma_ids_unique(jobs, m, i, k); }
+    }
+}
+
+proof fn lemma_sigs_push(s: Seq<Signal>, x: Signal, n: nat)
+    requires sigs_valid(s, n), x.node_idx < n, x.kind != SignalKind::JobFinishedSuccess,
+    ensures sigs_valid(s.push(x), n),
+{
+    assert forall|k: int| 0 <= k < s.push(x).len() implies (#[trigger] s.push(x)[k]).node_idx < n && s.push(x)[k].kind != SignalKind::JobFinishedSuccess by {
+        if k < s.len() { assert(s.push(x)[k] == s[k]); }
+    }
+}
+
+proof fn lemma_sigs_subset(a: Seq<Signal>, b: Seq<Signal>, n: nat)
+    requires sigs_valid(a, n), forall|k: int| 0 <= k < b.len() ==> a.contains(#[trigger] b[k]),
+    ensures sigs_valid(b, n),
+{
+    assert forall|k: int| 0 <= k < b.len() implies (#[trigger] b[k]).node_idx < n && b[k].kind != SignalKind::JobFinishedSuccess by {
+        let q = choose|q: int| 0 <= q < a.len() && a[q] == b[k];
+        assert(a[q].node_idx < n);
     }
 }
